@@ -24,7 +24,7 @@ import collections
 from mc import boundx
 from mc import c19_model as m
 
-BUDGET = {'quick': 60, 'thorough': 420}
+BUDGET = {'quick': 240, 'thorough': 420}
 HASH_INSENSITIVE = True
 
 RULE = ('a call is non-trivial when an existing reservation of the same cell '
